@@ -24,6 +24,10 @@ type RunResult struct {
 	SimNs        int64          // simulated (fake-clock) nanoseconds covered
 	SubRuns      int            // executions performed inside this run (prefix / fault enumeration)
 	Infra        string         // non-empty: infrastructure trouble (not a violation)
+	// Narrow maps a violation signature to an equivalent trace that names the
+	// single fault that exposed it (fault-enumeration engines); the minimiser
+	// starts from it instead of re-enumerating every fault position.
+	Narrow map[string]*trace.Trace
 }
 
 // Prop describes how one property is checked.
@@ -50,6 +54,15 @@ type Prop struct {
 	NeedsTestBinary bool
 	// MaxShrinkExecs bounds the minimiser (default 400).
 	MaxShrinkExecs int
+	// MemLimitMiB: address-space limit of worker and replay processes (0 = none).
+	// Used where the library may attempt huge allocations on damaged input.
+	MemLimitMiB int
+	// HangSeconds: a worker whose progress file does not change for this long is
+	// killed and the announced trace is reported as a hang (0 = no watchdog).
+	HangSeconds int
+	// KeepLastFault: a trace without faults means "enumerate every fault", so
+	// the minimiser must not drop the last explicit fault.
+	KeepLastFault bool
 }
 
 // Registry of all properties (filled by package registration).
@@ -95,5 +108,7 @@ type Summary struct {
 	Failures     []Failure         `json:"failures"`
 	Infra        []string          `json:"infra"`
 	WallS        float64           `json:"wall_s"`
+	Done         bool              `json:"done"`     // the segment ran to the end of its share
+	NextIdx      int               `json:"next_idx"` // absolute index of the run in progress / next to run
 	FirstFP      map[string]string `json:"-"`
 }
